@@ -128,7 +128,10 @@ class HammingIMQKernel(Kernel):
         self.initialize(raw_beta=self.raw_beta_constraint.inverse_transform(value))
 
     def _imq(self, dist: Tensor) -> Tensor:
-        return ((1 + self.alpha) / (self.alpha + dist)).pow(self.beta)
+        extra = [1] * (dist.dim() - len(self.batch_shape) - 1)
+        alpha = self.alpha.view(*self.batch_shape, 1, *extra)
+        beta = self.beta.view(*self.batch_shape, 1, *extra)
+        return ((1 + alpha) / (alpha + dist)).pow(beta)
 
     def forward(self, x1: Tensor, x2: Tensor, diag: bool = False, **params):
         # GPyTorch is pretty particular about dimensions so we need to unflatten the one-hot encoding
@@ -140,8 +143,8 @@ class HammingIMQKernel(Kernel):
         if diag:
             if x1_eq_x2:
                 res = ((1 + self.alpha) / self.alpha).pow(self.beta)
-                skip_dims = [-1] * len(self.batch_shape)
-                return res.expand(*skip_dims, x1.size(-3))
+                out_batch = torch.broadcast_shapes(x1.shape[:-3], self.batch_shape)
+                return res.expand(*out_batch, x1.size(-3))
             else:
                 dist = x1.size(-2) - (x1 * x2).sum(dim=(-1, -2))
                 return self._imq(dist)
